@@ -49,7 +49,7 @@ theorem specIfCond_ref (c : IfCond) (s : SpecSt) : specIfCond true c s = specIfC
   cases c with
   | single e => simp only [specExpr_ref]
   | logic lc => simp only [specLogic_ref]
-theorem specJret_ref (e : Expr) (s : SpecSt) : specJret true e s = specJret false e s := by
+theorem specJret_ref (e : Expr) (s : SpecSt) : specJret true rg e s = specJret false rg e s := by
   unfold specJret; rw [specExpr_ref]
 theorem specRet_ref (e : Expr) (s : SpecSt) : specRet true e s = specRet false e s := by
   unfold specRet; rw [specExpr_ref]
